@@ -121,6 +121,7 @@ def main(argv=None):
   pool = ctx.Pool(nworkers, maxtasksperchild=getattr(mod, 'MAX_TASKS_PER_CHILD', None))
   budget = float(os.environ.get('VERIF_MAX_WALL_S') or (900 if args.tier == 'quick' else 6 * 3600))
   timed_out = False
+  n_done = 0
   try:
     it = pool.imap_unordered(_run_job, [(modname, j) for j in jobs])
     for _ in range(len(jobs)):
@@ -129,6 +130,7 @@ def main(argv=None):
       except multiprocessing.TimeoutError:
         timed_out = True
         break
+      n_done += 1
       if status == 'ok':
         total.merge(payload)
       else:
@@ -138,10 +140,15 @@ def main(argv=None):
       pool.join()
   finally:
     pool.terminate()
-  if timed_out:
+  if timed_out and args.tier == 'quick':
     # A wall-clock budget hit is "inconclusive" (code under test hangs or the machine is overloaded), never a violation.
     print('HARNESS-ERROR property=%s inconclusive: wall-clock budget of %.0fs exceeded (a job hangs?)' % (pid, budget))
     return 2
+  if timed_out:
+    # thorough tier: the budget bounds the exploration; what the finished jobs explored is reported, the rest is named
+    note = 'wall-clock budget of %.0fs used up after %d of %d jobs; the remaining jobs were not run (nothing is claimed for them)' % (budget, n_done, len(jobs))
+    total.notes.append(note)
+    print('INCONCLUSIVE-PART property=%s %s' % (pid, note))
   wall = time.time() - t0
 
   viols = [v for s, v in sorted(total.violations.items()) if s not in known]
